@@ -453,6 +453,140 @@ pub fn spy_insert_row_empty_huge() {
     kani::cover!(true, "RETURNED-NORMALLY");
 }
 
+
+// ---------------------------------------------------------------- translate_with_wrap (C15, C04) -- functional, bounded
+pub fn translate_owned<const C: usize, const R: usize, const N: usize, const MC: usize, const MR: usize>() {
+    // the offset is a const parameter: with a symbolic offset the cycle-leader loops exhaust CBMC
+    let (mut t, a) = mk::<N>(C, R);
+    let mc: usize = MC;
+    let mr: usize = MR;
+    t.translate_with_wrap((mc, mr));
+    assert!(wf(&t) && t.size() == (C, R));
+    let pc: usize = kani::any();
+    let pr: usize = kani::any();
+    kani::assume(pc < C && pr < R);
+    let sc = (pc + mc) % C;
+    let sr = (pr + mr) % R;
+    assert!(t[(pc, pr)] == a[sr * C + sc], "C15 translate_with_wrap moves (c+mc, r+mr) to (c, r)");
+}
+pub fn translate_bad<const C: usize, const R: usize, const N: usize, const MC: usize, const MR: usize>() {
+    let (mut t, _a) = mk::<N>(C, R);
+    let mc: usize = MC;
+    let mr: usize = MR;
+    t.translate_with_wrap((mc, mr));
+    kani::cover!(true, "RETURNED-NORMALLY");
+}
+/// interior window (1,1)..(1+C,1+R) of a (C+2)x(R+2) parent: inside = model, outside untouched
+pub fn translate_window<const C: usize, const R: usize, const PN: usize, const MC: usize, const MR: usize>() {
+    let (mut t, a) = mk::<PN>(C + 2, R + 2);
+    let mc: usize = MC;
+    let mr: usize = MR;
+    {
+        let mut v = t.view_mut((1, 1), (1 + C, 1 + R));
+        v.translate_with_wrap((mc, mr));
+    }
+    let pc: usize = kani::any();
+    let pr: usize = kani::any();
+    kani::assume(pc < C + 2 && pr < R + 2);
+    let inside = pc >= 1 && pc < 1 + C && pr >= 1 && pr < 1 + R;
+    let exp = if inside {
+        let sc = (pc - 1 + mc) % C;
+        let sr = (pr - 1 + mr) % R;
+        a[(sr + 1) * (C + 2) + sc + 1]
+    } else {
+        a[pr * (C + 2) + pc]
+    };
+    assert!(t[(pc, pr)] == exp, "C15/C04 translate on a window: inside = model, outside untouched");
+}
+
+// ---------------------------------------------------------------- whole-array copies through the trait defaults (C14, C04)
+pub fn copy_defaults_window<const C: usize, const R: usize, const PN: usize, const SN: usize>() {
+    let (mut t, a) = mk::<PN>(C + 2, R + 1);
+    let src: [u8; SN] = kani::any();
+    let which: u8 = kani::any();
+    kani::assume(which < 4);
+    {
+        let mut v = t.view_mut((1, 0), (1 + C, R));
+        if which == 0 {
+            v.copy_from_slice(&src);
+        } else if which == 1 {
+            v.clone_from_slice(&src);
+        } else {
+            let s = TooDee::from_vec(C, R, src.to_vec());
+            if which == 2 { v.copy_from_toodee(&s); } else { v.clone_from_toodee(&s.view((0, 0), (C, R))); }
+        }
+    }
+    let pc: usize = kani::any();
+    let pr: usize = kani::any();
+    kani::assume(pc < C + 2 && pr < R + 1);
+    let inside = pc >= 1 && pc < 1 + C && pr < R;
+    let exp = if inside { src[pr * C + pc - 1] } else { a[pr * (C + 2) + pc] };
+    assert!(t[(pc, pr)] == exp, "C14/C04 copy into a window: row-major source cells inside, outside untouched");
+}
+pub fn copy_defaults_owned<const C: usize, const R: usize, const N: usize>() {
+    let (mut t, _a) = mk::<N>(C, R);
+    let src: [u8; N] = kani::any();
+    let s = TooDee::from_vec(C, R, src.to_vec());
+    if kani::any() { t.copy_from_toodee(&s); } else { t.clone_from_toodee(&s.view((0, 0), (C, R))); }
+    let p: usize = kani::any();
+    kani::assume(p < N);
+    assert!(t.data()[p] == src[p], "C14 copy_from_toodee / clone_from_toodee on an owned array");
+}
+pub fn copy_size_mismatch<const C: usize, const R: usize, const N: usize, const SN: usize>() {
+    let (mut t, _a) = mk::<N>(C, R);
+    let src: [u8; SN] = kani::any();
+    let mut v = t.view_mut((0, 0), (C, R));
+    v.copy_from_slice(&src);
+    kani::cover!(true, "RETURNED-NORMALLY");
+}
+pub fn copy_empty_view() {
+    let mut t: TooDee<u8> = TooDee::from_vec(2, 2, alloc::vec![1, 2, 3, 4]);
+    let src: [u8; 0] = [];
+    {
+        let mut v = t.view_mut((1, 1), (1, 1));
+        v.copy_from_slice(&src);
+        v.clone_from_slice(&src);
+    }
+    assert!(t.data()[0] == 1 && t.data()[3] == 4, "C14 copying into an empty view is a no-op");
+}
+
+// ---------------------------------------------------------------- cells()/cells_mut() (C10) -- op sequences, bounded
+/// two symbolic operations then drain forward; compared against row-major order
+pub fn cells_ops<const C: usize, const R: usize, const N: usize>() {
+    let (t, a) = mk::<N>(C, R);
+    let mut it = t.cells();
+    let mut lo: usize = 0; // model: remaining = a[lo..hi]
+    let mut hi: usize = N;
+    let mut k = 0;
+    while k < 2 {
+        let op: u8 = kani::any();
+        kani::assume(op < 5);
+        let n: usize = kani::any();
+        kani::assume(n <= N + 1 || n == usize::MAX);
+        if op == 0 {
+            let g = it.next();
+            if lo < hi { assert!(g == Some(&a[lo]), "C10 next"); lo += 1; } else { assert!(g.is_none()); }
+        } else if op == 1 {
+            let g = it.next_back();
+            if lo < hi { assert!(g == Some(&a[hi - 1]), "C10 next_back"); hi -= 1; } else { assert!(g.is_none()); }
+        } else if op == 2 {
+            let g = it.nth(n);
+            if n < hi - lo { assert!(g == Some(&a[lo + n]), "C10 nth"); lo += n + 1; } else { assert!(g.is_none(), "C10 nth beyond end"); lo = hi; }
+        } else if op == 3 {
+            let g = it.nth_back(n);
+            if n < hi - lo { assert!(g == Some(&a[hi - 1 - n]), "C10 nth_back"); hi -= n + 1; } else { assert!(g.is_none(), "C10 nth_back beyond end"); hi = lo; }
+        } else {
+            assert!(it.len() == hi - lo, "C10 len");
+        }
+        k += 1;
+    }
+    assert!(it.len() == hi - lo, "C10 len after ops");
+    let g = it.next();
+    if lo < hi { assert!(g == Some(&a[lo]), "C10 next after ops"); } else { assert!(g.is_none()); }
+}
+
+// (sort: even 2x2 sort_by_row / sort_by_col exceed 10 min in CBMC - std's sort on a boxed side buffer - so no Kani harness exists for C16/C17)
+
 // ---------------------------------------------------------------- harness instances
 macro_rules! h {
     ($name:ident, $f:ident, $($g:expr),*) => {
@@ -534,3 +668,66 @@ h!(k_spy_insert_col_4x1, spy_insert_col, 4, 1, 4);
 h!(k_spy_insert_col_2x3, spy_insert_col, 2, 3, 6);
 hp!(k_spy_insert_row_lying_short, spy_insert_row_lying, 2, 2, 4, 1);
 hp!(k_spy_insert_row_empty_huge, spy_insert_row_empty_huge,);
+
+h!(k_copy_defaults_window_2x2, copy_defaults_window, 2, 2, 12, 4);
+h!(k_copy_defaults_window_1x3, copy_defaults_window, 1, 3, 12, 3);
+h!(k_copy_defaults_owned_2x2, copy_defaults_owned, 2, 2, 4);
+hp!(k_copy_size_mismatch_short, copy_size_mismatch, 2, 2, 4, 3);
+hp!(k_copy_size_mismatch_long, copy_size_mismatch, 2, 2, 4, 5);
+h!(k_copy_empty_view, copy_empty_view,);
+h!(k_cells_ops_2x2, cells_ops, 2, 2, 4);
+h!(k_cells_ops_3x2, cells_ops, 3, 2, 6);
+hl!(k_translate_owned_2x2_m0_0, translate_owned, 2, 2, 4, 0, 0);
+hl!(k_translate_owned_2x2_m0_1, translate_owned, 2, 2, 4, 0, 1);
+hl!(k_translate_owned_2x2_m0_2, translate_owned, 2, 2, 4, 0, 2);
+hl!(k_translate_owned_2x2_m1_0, translate_owned, 2, 2, 4, 1, 0);
+hl!(k_translate_owned_2x2_m1_1, translate_owned, 2, 2, 4, 1, 1);
+hl!(k_translate_owned_2x2_m1_2, translate_owned, 2, 2, 4, 1, 2);
+hl!(k_translate_owned_2x2_m2_0, translate_owned, 2, 2, 4, 2, 0);
+hl!(k_translate_owned_2x2_m2_1, translate_owned, 2, 2, 4, 2, 1);
+hl!(k_translate_owned_2x2_m2_2, translate_owned, 2, 2, 4, 2, 2);
+hl!(k_translate_owned_3x2_m0_0, translate_owned, 3, 2, 6, 0, 0);
+hl!(k_translate_owned_3x2_m0_1, translate_owned, 3, 2, 6, 0, 1);
+hl!(k_translate_owned_3x2_m0_2, translate_owned, 3, 2, 6, 0, 2);
+hl!(k_translate_owned_3x2_m1_0, translate_owned, 3, 2, 6, 1, 0);
+hl!(k_translate_owned_3x2_m1_1, translate_owned, 3, 2, 6, 1, 1);
+hl!(k_translate_owned_3x2_m1_2, translate_owned, 3, 2, 6, 1, 2);
+hl!(k_translate_owned_3x2_m2_0, translate_owned, 3, 2, 6, 2, 0);
+hl!(k_translate_owned_3x2_m2_1, translate_owned, 3, 2, 6, 2, 1);
+hl!(k_translate_owned_3x2_m2_2, translate_owned, 3, 2, 6, 2, 2);
+hl!(k_translate_owned_3x2_m3_0, translate_owned, 3, 2, 6, 3, 0);
+hl!(k_translate_owned_3x2_m3_1, translate_owned, 3, 2, 6, 3, 1);
+hl!(k_translate_owned_3x2_m3_2, translate_owned, 3, 2, 6, 3, 2);
+hl!(k_translate_owned_2x3_m0_0, translate_owned, 2, 3, 6, 0, 0);
+hl!(k_translate_owned_2x3_m0_1, translate_owned, 2, 3, 6, 0, 1);
+hl!(k_translate_owned_2x3_m0_2, translate_owned, 2, 3, 6, 0, 2);
+hl!(k_translate_owned_2x3_m0_3, translate_owned, 2, 3, 6, 0, 3);
+hl!(k_translate_owned_2x3_m1_0, translate_owned, 2, 3, 6, 1, 0);
+hl!(k_translate_owned_2x3_m1_1, translate_owned, 2, 3, 6, 1, 1);
+hl!(k_translate_owned_2x3_m1_2, translate_owned, 2, 3, 6, 1, 2);
+hl!(k_translate_owned_2x3_m1_3, translate_owned, 2, 3, 6, 1, 3);
+hl!(k_translate_owned_2x3_m2_0, translate_owned, 2, 3, 6, 2, 0);
+hl!(k_translate_owned_2x3_m2_1, translate_owned, 2, 3, 6, 2, 1);
+hl!(k_translate_owned_2x3_m2_2, translate_owned, 2, 3, 6, 2, 2);
+hl!(k_translate_owned_2x3_m2_3, translate_owned, 2, 3, 6, 2, 3);
+hl!(k_translate_owned_3x3_m1_1, translate_owned, 3, 3, 9, 1, 1);
+hl!(k_translate_owned_3x3_m2_1, translate_owned, 3, 3, 9, 2, 1);
+hl!(k_translate_owned_3x3_m1_2, translate_owned, 3, 3, 9, 1, 2);
+hl!(k_translate_owned_3x3_m2_2, translate_owned, 3, 3, 9, 2, 2);
+hl!(k_translate_owned_3x3_m3_3, translate_owned, 3, 3, 9, 3, 3);
+hl!(k_translate_owned_3x3_m0_2, translate_owned, 3, 3, 9, 0, 2);
+hl!(k_translate_owned_4x4_m1_2, translate_owned, 4, 4, 16, 1, 2);
+hl!(k_translate_owned_4x4_m3_2, translate_owned, 4, 4, 16, 3, 2);
+hl!(k_translate_owned_4x4_m2_2, translate_owned, 4, 4, 16, 2, 2);
+hl!(k_translate_owned_4x4_m1_3, translate_owned, 4, 4, 16, 1, 3);
+hl!(k_translate_owned_3x4_m1_2, translate_owned, 3, 4, 12, 1, 2);
+hl!(k_translate_owned_3x4_m2_2, translate_owned, 3, 4, 12, 2, 2);
+hl!(k_translate_owned_3x4_m1_0, translate_owned, 3, 4, 12, 1, 0);
+hp!(k_translate_bad_2x2_m3_0, translate_bad, 2, 2, 4, 3, 0);
+hp!(k_translate_bad_2x2_m0_3, translate_bad, 2, 2, 4, 0, 3);
+hp!(k_translate_bad_2x2_m3_1, translate_bad, 2, 2, 4, 3, 1);
+hl!(k_translate_window_2x2_m1_1, translate_window, 2, 2, 16, 1, 1);
+hl!(k_translate_window_2x2_m1_0, translate_window, 2, 2, 16, 1, 0);
+hl!(k_translate_window_2x2_m0_1, translate_window, 2, 2, 16, 0, 1);
+hl!(k_translate_window_3x4_m1_2, translate_window, 3, 4, 30, 1, 2);
+hl!(k_translate_window_3x4_m2_2, translate_window, 3, 4, 30, 2, 2);
